@@ -391,7 +391,8 @@ def in_or_plain_random(col, seed, max_examples):
 
     @st.composite
     def cases(draw):
-        fam = draw(st.sampled_from(['in', 'or', 'or', 'plain']))
+        fam = draw(st.sampled_from(['in', 'in', 'or', 'or', 'plain',
+                                    'plain']))
         lay = _layout_kw(draw(_st_layout(st)))
         if fam == 'in':
             needle = draw(_st_atom(st, 4))
